@@ -115,10 +115,11 @@ static std::vector<Fault> enumerate(const std::vector<char> &b, int level, uint6
   std::vector<Fault> fs;
   const long L = (long)b.size();
   vrt::Rng r(seed ^ (index * 7919));
-  const long step = level >= 2 ? 1 : (L <= 300 ? 1 : (L <= 1500 ? 5 : 23));
+  // thorough: every offset of every stream up to 6000 bytes; the four big legacy files (37..121 KB) at about 4000 evenly spread offsets each
+  const long step = level >= 2 ? (L <= 6000 ? 1 : (L + 3999) / 4000) : (L <= 300 ? 1 : (L <= 1500 ? 5 : 23));
   const long phase = (long)(r.below((uint64_t)step));
   fs.push_back({8, 0, 0, 0});
-  for (long t = 0; t < L; t += (L <= 600 || level >= 2 ? 1 : 3)) fs.push_back({0, t, 0, 0});
+  for (long t = 0; t < L; t += (level >= 2 ? step : (L <= 600 ? 1 : 3))) fs.push_back({0, t, 0, 0});
   for (long o = phase; o < L; o += step) {
     const unsigned char v = (unsigned char)b[o];
     for (int val : {0x00, 0xFF, (v + 1) & 0xFF, (v - 1) & 0xFF, v ^ 0x80, v ^ 0x01}) if (val != v) fs.push_back({1, o, val, 0});
